@@ -14,12 +14,12 @@ import (
 type Mode int
 
 const (
-	Whole       Mode = iota // as much as the caller asks for
-	OneByte                 // one byte per Read
-	Random                  // random fragment sizes
-	ZeroReads               // random fragments interleaved with (0, nil) reads
-	EOFWithData             // like Random, and the last fragment arrives together with io.EOF
-	ChunkAligned            // fragments of exactly Align bytes
+	Whole        Mode = iota // as much as the caller asks for
+	OneByte                  // one byte per Read
+	Random                   // random fragment sizes
+	ZeroReads                // random fragments interleaved with (0, nil) reads
+	EOFWithData              // like Random, and the last fragment arrives together with io.EOF
+	ChunkAligned             // fragments of exactly Align bytes
 	NModes
 )
 
@@ -27,10 +27,50 @@ func (m Mode) String() string {
 	return [...]string{"whole", "one-byte", "random", "zero-reads", "eof-with-data", "chunk-aligned"}[m]
 }
 
+// Seekable is an io.ReadSeeker over data that is NOT an *os.File and has no
+// Len(): what a caller hands over after reading a header off the front of a
+// stream. The bytes from its current position on are the logical input.
+type Seekable struct {
+	data  []byte
+	off   int64
+	Seeks int
+}
+
+func NewSeekable(data []byte, off int64) *Seekable { return &Seekable{data: data, off: off} }
+
+func (s *Seekable) Read(p []byte) (int, error) {
+	if s.off >= int64(len(s.data)) {
+		return 0, io.EOF
+	}
+	n := copy(p, s.data[s.off:])
+	s.off += int64(n)
+	return n, nil
+}
+
+func (s *Seekable) Seek(offset int64, whence int) (int64, error) {
+	s.Seeks++
+	var n int64
+	switch whence {
+	case io.SeekStart:
+		n = offset
+	case io.SeekCurrent:
+		n = s.off + offset
+	case io.SeekEnd:
+		n = int64(len(s.data)) + offset
+	}
+	if n < 0 {
+		return s.off, fmt.Errorf("negative position")
+	}
+	s.off = n
+	return n, nil
+}
+
 // ErrInjected is the source-side injected failure.
 type ErrInjected struct{ At int }
 
-func (e *ErrInjected) Error() string { return fmt.Sprintf("simsource injected read error at byte %d", e.At) }
+func (e *ErrInjected) Error() string {
+	return fmt.Sprintf("simsource injected read error at byte %d", e.At)
+}
 
 // Source is an io.Reader over fixed data.
 type Source struct {
